@@ -20,9 +20,9 @@ theorem make_shallow_clone_step (s : St)
   | stat i l => rt_step
   | heap a l =>
     cases hg : hp.get? a with
-    | none => rt_step [hg, Heap.retain, hr_refcount_none rf st hp a l _ hg]
+    | none => rt_heap_none rf st hp a l hg [Heap.retain]
     | some b =>
       have hle : ¬ b.rc > isize_MAX := by have := hrc a l b rfl hg; omega
-      rt_step [hg, Heap.retain, hr_refcount_some rf st hp a l _ hg, rc_fetch_add_some rf st hp a l _ _ _ hg, hle]
+      rt_heap_some rf st hp a l hg [Heap.retain, hle]
 
 end LS.GenTie
